@@ -345,6 +345,8 @@ def run(ctx):
             if debug:
                 slog.addHandler(sink)
                 slog.setLevel(logging.DEBUG)
+                old_disable = logging.root.manager.disable
+                logging.disable(logging.NOTSET)
             loc = [("Location", srv.url("/elsewhere"))] if status in (301, 302, 303, 307, 308) and rng.random() < 0.5 else []
             srv.httpd.plan = (lambda h, status=status, body=body, loc=loc:
                               {"status": 200, "body": b"<moved/>"} if h.path == "/elsewhere"
@@ -360,6 +362,7 @@ def run(ctx):
                 real = ["other", repr(e)]
             finally:
                 if debug:
+                    logging.disable(old_disable)
                     slog.setLevel(old_level)
                     slog.removeHandler(sink)
             meta = {"status": status, "redirect": bool(loc), "debug_logging": debug}
